@@ -50,8 +50,8 @@ def demote_rewritten(r):
             # a discharged obligation about a body that a new decorator wraps says nothing about the function either
             wrapped.add(q)
             r.rep.deferred.append(f"{q}: wrapped by a decorator introduced after validation ({_new_wrapper(r, q, BASELINE_VOCAB.get('__functions__') or ())}): its behaviour is not that of its body; cannot decide")
-        if o.ok or o.detail.get("undecided"):
-            continue
+        if o.ok or o.detail.get("undecided") or o.detail.get("lint"):
+            continue          # (a lint names a construct that is wrong whatever the surrounding code looks like: not subject to demotion)
         if q not in cache:
             sim_ = similarity_to_baseline(r.P, q, base)
             if sim_ is None and q in r.P.functions:
